@@ -561,3 +561,17 @@ def fx_flow(fx):
         and not flow.source_reaches_field(f("bad_load"), src, fld, fx=fx) \
         and flow.field_reaches_sink(f("ok_save"), fld, r"Write::write_all$|Write>::write_all$") \
         and not flow.field_reaches_sink(f("bad_save"), fld, r"Write::write_all$|Write>::write_all$")
+
+
+def fx_matchverify(fx):
+    from rules import matchverify
+    c = _ctx()
+    n = matchverify.run(c, fx, ["src/lib.rs"], only=lambda fid: "matchfx::" in fid)
+    return n == 3 and _fires(c, "matchfx::bad_trusts_hash") and not _fires(c, "matchfx::ok_from_zero") and not _fires(c, "matchfx::ok_verified")
+
+
+def fx_shared(fx):
+    from rules import order
+    c = _ctx()
+    n = order.shared_accumulator(c, fx, ["src/lib.rs"], only=lambda fid: "sharedfx::" in fid)
+    return n == 3 and _fires(c, "sharedfx::bad_blocks") and not _fires(c, "sharedfx::ok_blocks") and not _fires(c, "sharedfx::ok_sorted")
